@@ -44,7 +44,7 @@ func ValidateAttestation(ctx context.Context, subnet uint64, att *phase0.Attesta
 	// (within a MAXIMUM_GOSSIP_CLOCK_DISPARITY allowance) --
 	// i.e. attestation.data.slot + ATTESTATION_PROPAGATION_SLOT_RANGE >= current_slot >= attestation.data.slot
 
-	if err := CheckSlotSpan(attVal.SlotAfter, att.Data.Slot, ATTESTATION_PROPAGATION_SLOT_RANGE); err != nil {
+	if err := CheckAttestationSlot(spec, attVal.SlotAfter, att.Data.Slot); err != nil {
 		return nil, GossipValidatorResult{IGNORE, fmt.Errorf("individual attestation not within slot range: %v", err)}
 	}
 
